@@ -46,7 +46,8 @@ REQUIRED_BUILD = ["KV.C03ProbingBuild.probing_build_represents", "KV.C03ProbingB
                   "KV.C03ProbingBuild.probing_rest_unigram", "KV.C03ProbingBuild.restOf_is_max",
                   "KV.C03ProbingBuild.probing_rest_build_represents_closed", "KV.C03ProbingBuild.probing_rest_refines",
                   "KV.C03ProbingBuild.probing_rest_end_to_end_closed", "KV.C03ProbingBuild.probing_rest_is_maxRest",
-                  "KV.C03ProbingBuild.probing_rest_chain_adjust_partial"]
+                  "KV.C03ProbingBuild.probing_rest_chain_adjust_partial",
+                  "KV.C03ProbingBuild.probing_rest_chain_line_partial", "KV.C03ProbingBuild.probing_rest_chain_nonrest_partial"]
 
 KEY_QUANT = "quant-distinct-values-but-count-exceeds-bins"
 KEY_BB1 = "quant-backoff-bits-1-overflow"
